@@ -1,207 +1,11 @@
+(* C14 — InvF preserved by every step of the channel-level system *)
 From Oras Require Import Base.Prelude Model.Referrers Proofs.Referrers Model.Merge Proofs.Merge Model.MergeFine.
-From Oras Require Import Proofs.MergeFine.
+From Oras Require Import Proofs.MergeFine Proofs.MergeFineGet Proofs.MergeFineMain Proofs.MergeFineAssign Proofs.MergeFineWake.
+From Oras Require Export Proofs.MergeFineRecv Proofs.MergeFineNotify Proofs.MergeFineSwap.
 From Coq Require Import Lia.
 
-Ltac dI I := destruct I as [f_it0 f_it_nd0 f_pe0 f_pe_nd0 f_mn0 f_mu0 f_wt0 f_tok0 f_tom0 f_emp0 f_com0 f_qt0 f_fut0 f_vb0 f_vc0 f_vm0 f_vw0 f_vn0 f_pl0].
 
 (* the main caller receives the main status *)
-Lemma stepF_recv sg s t s' : InvF s -> fstep sg s (FERecv t) = Some s' -> InvF s'.
-Proof.
-  intros I H. simpl in H.
-  destruct (f_pcs s t) as [|c|g| |old|nw o|oi ap|r k|r|r|r] eqn:Hpc; try discriminate.
-  destruct (f_wt s I t g Hpc) as (Hg1 & Hg2 & Hg3).
-  destruct (fbuf (f_chans s g)) as [[|r]|] eqn:Hb.
-  - (* main status *)
-    injection H as <-. pose proof (f_vm s I g Hb) as ->.
-    destruct (f_tok s I Hb) as (Hni & Hcm & Hnomain).
-    destruct (f_token_fresh s I Hb) as (Hcl & Hv).
-    pose proof (Hg2 eq_refl) as Hin.
-    dI I. constructor; simpl.
-    all: try solve [fsolve].
-    + intros t0 c0 Hin0. tcase t0 t; [right; left; reflexivity|].
-      destruct (f_it0 t0 c0 Hin0) as [E|[E|[(tm & Htm) E]]]; auto.
-      apply fwindow_main in Htm. now rewrite Hnomain in Htm.
-    + intros t0 c0 Hin0. destruct (f_pe0 t0 c0 Hin0) as [A B]. split; [|exact B].
-      tcase t0 t; [tauto|exact A].
-    + rewrite upd_eq. simpl. discriminate.
-    + intros _. right. exists t. now rewrite upd_eq.
-    + intros t0 Hx. rewrite upd_eq. simpl. tcase t0 t; [auto|]. apply fpre_main in Hx. now rewrite Hnomain in Hx.
-    + destruct f_pl0 as (hs & A & B & C). exists hs. split; auto. split; auto.
-      intro x. tcase x t; [rewrite B, Hpc; simpl; tauto | apply B].
-  - (* a buffered result *)
-    injection H as <-.
-    assert (Hv : f_verdict s g = Some r) by (eapply (f_vb s I); eauto).
-    assert (Hle : (g <= f_gen s)%nat).
-    { destruct (Nat.le_gt_cases g (f_gen s)); auto. destruct (f_fut s I g H) as (A & _). congruence. }
-    apply invF_wake with (g := g); auto.
-    + intros ->. destruct (f_vn s I r Hv) as (tm & Htm). exists tm. eapply fres_window; eauto.
-    + right. split; [congruence|reflexivity].
-  - destruct (fclosed (f_chans s g)) eqn:Hc; [|discriminate]. injection H as <-.
-    assert (Hv : f_verdict s g = Some ROk) by (eapply (f_vc s I); eauto).
-    assert (Hle : (g <= f_gen s)%nat).
-    { destruct (Nat.le_gt_cases g (f_gen s)); auto. destruct (f_fut s I g H) as (_ & A & _). congruence. }
-    unfold fset_pc. apply invF_wake with (g := g); auto.
-    intros ->. destruct (f_vn s I ROk Hv) as (tm & Htm). exists tm. eapply fres_window; eauto.
-Qed.
-
-(* a channel operation of complete(): the main caller stays between FNotify and FSwap *)
-Lemma invF_window s t p ch' :
-  InvF s -> fwindow (f_pcs s t) = true -> fwindow p = true -> fres p = fres (f_pcs s t) ->
-  (forall g0, g0 <> f_gen s -> ch' g0 = f_chans s g0) ->
-  fbuf (ch' (f_gen s)) <> Some FMain ->
-  (forall r0, fbuf (ch' (f_gen s)) = Some (FRes r0) -> f_verdict s (f_gen s) = Some r0) ->
-  (fclosed (ch' (f_gen s)) = true -> f_verdict s (f_gen s) = Some ROk) ->
-  InvF (mkF (f_pool s) (f_committed s) (f_items s) (f_pending s) (f_gen s) ch' (upd (f_pcs s) t p)
-            (f_reg s) (f_store s) (f_verdict s)).
-Proof.
-  intros I Hw Hp Hr Hch Hnm Hvb Hvc.
-  assert (Hm : fmain (f_pcs s t) = true) by now apply fwindow_main.
-  assert (Hpm : fmain p = true) by now apply fwindow_main.
-  assert (Hu : forall t0, fmain (f_pcs s t0) = true -> t0 = t) by (intros; eapply (f_mu s I); eauto).
-  assert (Hpost : fpost p = true) by (destruct p; try discriminate; reflexivity).
-  assert (Hpost0 : fpost (f_pcs s t) = true) by (destruct (f_pcs s t); try discriminate; reflexivity).
-  assert (Hnpre : fpre p = false) by (destruct p; try discriminate; reflexivity).
-  dI I. constructor; simpl.
-  all: try solve [fsolve].
-  all: try solve [apply it_keep; auto].
-  all: try solve [intros t0 c0 Hin0; destruct (f_pe0 t0 c0 Hin0) as [A B]; split; [|exact B]; tcase t0 t; auto; rewrite A in Hm; discriminate].
-  all: try solve [intros t0 Hx; tcase t0 t; auto].
-  all: try solve [intros t1 t2 H1 H2; tcase t1 t; tcase t2 t; auto; symmetry; auto].
-  all: try solve [intros t0 g Hx; tcase t0 t; [rewrite Hx in Hpm; discriminate|eauto]].
-  all: try solve [intro Hx; congruence].
-  all: try solve [intros _; right; exists t; rewrite upd_eq; exact Hpm].
-  all: try solve [intros t0 Hx; tcase t0 t; eauto].
-  all: try solve [intros t0 Hx; tcase t0 t; [congruence|]; apply fpre_main, Hu in Hx; congruence].
-  all: try solve [intros g0 Hx; rewrite Hch by lia; auto].
-  all: try solve [intros g0 r0 Hx; destruct (Nat.eq_dec g0 (f_gen s)) as [->|Hne]; [auto|rewrite Hch in Hx by auto; eauto]].
-  all: try solve [intros g0 Hx; destruct (Nat.eq_dec g0 (f_gen s)) as [->|Hne]; [auto|rewrite Hch in Hx by auto; eauto]].
-  all: try solve [intros t0 r0 Hx; tcase t0 t; [rewrite Hr in Hx; eauto|eauto]].
-  all: try solve [intros r0 Hx; destruct (f_vn0 r0 Hx) as (x & Hxx); destruct (Nat.eq_dec x t) as [->|Hne];
-                  [exists t; rewrite upd_eq; congruence|exists x; now rewrite upd_neq]].
-  destruct f_pl0 as (hs & A & B & C). exists hs. split; auto. split; auto.
-  intro x. tcase x t; [rewrite B, (fmain_holding _ Hm), (fmain_holding _ Hpm); tauto | apply B].
-Qed.
-
-Lemma stepF_notify sg s t s' : InvF s -> fstep sg s (FENotify t) = Some s' -> InvF s'.
-Proof.
-  intros I H. simpl in H.
-  destruct (f_pcs s t) as [|c|g| |old|nw o|oi ap|r k|r|r|r] eqn:Hpc; try discriminate.
-  assert (Hw : fwindow (f_pcs s t) = true) by now rewrite Hpc.
-  assert (Hv : f_verdict s (f_gen s) = Some r) by (apply (f_vw s I t); now rewrite Hpc).
-  pose proof (f_window_no_token s t I (fwindow_main _ Hw)) as Hnt.
-  assert (Hvb : forall r0, fbuf (f_chans s (f_gen s)) = Some (FRes r0) -> f_verdict s (f_gen s) = Some r0) by (intros; eapply (f_vb s I); eauto).
-  assert (Hvc : fclosed (f_chans s (f_gen s)) = true -> f_verdict s (f_gen s) = Some ROk) by (apply (f_vc s I)).
-  assert (Hsend : forall k2, r <> ROk -> fbuf (f_chans s (f_gen s)) = None ->
-            InvF (mkF (f_pool s) (f_committed s) (f_items s) (f_pending s) (f_gen s)
-                      (upd (f_chans s) (f_gen s) (mkFC (Some (FRes r)) (fclosed (f_chans s (f_gen s)))))
-                      (upd (f_pcs s) t (FNotify r k2)) (f_reg s) (f_store s) (f_verdict s))).
-  { intros k2 _ Hb. apply invF_window; auto; try (rewrite Hpc; reflexivity); try (rewrite upd_eq; simpl; congruence).
-    - intros g0 Hne. now rewrite upd_neq.
-    - rewrite upd_eq. simpl. exact Hvc. }
-  assert (Hskip : InvF (fset_pc s t (FSwap r))).
-  { unfold fset_pc. apply invF_window; auto; rewrite Hpc; reflexivity. }
-  destruct r.
-  - injection H as <-. apply invF_window; auto; try (rewrite Hpc; reflexivity); try (rewrite upd_eq; simpl; auto).
-    intros g0 Hne. now rewrite upd_neq.
-  - destruct k as [|k2]; [injection H as <-; exact Hskip|].
-    destruct (fbuf (f_chans s (f_gen s))) eqn:Hb; [discriminate|]. injection H as <-. apply Hsend; auto. discriminate.
-  - destruct k as [|k2]; [injection H as <-; exact Hskip|].
-    destruct (fbuf (f_chans s (f_gen s))) eqn:Hb; [discriminate|]. injection H as <-. apply Hsend; auto. discriminate.
-Qed.
-
-Lemma stepF_done sg s t s' : InvF s -> fstep sg s (FEDone t) = Some s' -> InvF s'.
-Proof.
-  intros I H. simpl in H.
-  destruct (f_pcs s t) as [|c|g| |old|nw o|oi ap|r k|r|r|r] eqn:Hpc; try discriminate.
-  destruct (f_pool s) as [rc|] eqn:Hpool; try discriminate. injection H as <-.
-  assert (Hnm : fmain (f_pcs s t) = false) by now rewrite Hpc.
-  assert (Hnw : fwindow (f_pcs s t) = false) by now rewrite Hpc.
-  assert (Hnr : fres (f_pcs s t) = None) by now rewrite Hpc.
-  assert (Hnp : forall c0, In (t, c0) (f_pending s) -> False).
-  { intros c0 Hin. destruct (f_pe s I t c0 Hin) as [E _]. rewrite Hpc in E. discriminate. }
-  dI I. constructor; simpl.
-  all: try solve [fsolve].
-  all: try solve [intro Hx; destruct (f_tok0 Hx) as (A & B & C); repeat split; auto; intro t0; tcase t0 t; auto].
-  all: try solve [intro Hx; destruct (f_tom0 Hx) as [A|A]; auto; right; apply ex_keep; auto].
-  all: try solve [intros r0 Hx; apply ex_res_keep; auto].
-  all: try solve [intros t0 c0 Hin0; assert (t0 <> t) by (intro; subst; eauto); rewrite upd_neq by auto; exact (f_pe0 t0 c0 Hin0)].
-  - intros t0 c0 Hin0. tcase t0 t.
-    + destruct (f_it0 t c0 Hin0) as [E|[E|[E _]]]; [congruence|congruence|].
-      right; right. split; [apply ex_keep; auto|eauto].
-    + destruct (f_it0 t0 c0 Hin0) as [E|[E|[E1 E2]]]; auto. right; right. split; auto. apply ex_keep; auto.
-  - destruct f_pl0 as (hs & Hnd & Hin & Hp). rewrite Hpool in Hp. destruct Hp as [-> Hne0].
-    assert (Ht : In t hs) by (apply Hin; rewrite Hpc; reflexivity).
-    destruct (remove_facts hs t Hnd Ht) as (A & B & C).
-    exists (remove Nat.eq_dec t hs). repeat split; auto.
-    + intro Hx. apply B in Hx as [Hx Hy]. rewrite upd_neq by auto. now apply Hin.
-    + intro Hx. tcase t0 t; [discriminate|]. apply B. split; auto. now apply Hin.
-    + destruct (Nat.leb (length hs - 1) 0) eqn:El.
-      * apply Nat.leb_le in El. destruct (remove Nat.eq_dec t hs) eqn:Er; [reflexivity|]. exfalso. rewrite ?Er in C. simpl in C. unfold tid in *. lia.
-      * apply Nat.leb_gt in El. unfold tid in *. split; [lia|]. intro E. rewrite E in C. simpl in C. lia.
-Qed.
-
-Lemma stepF_extdrop sg s s' : InvF s -> fstep sg s FEExtDrop = Some s' -> InvF s'.
-Proof.
-  intros I H. simpl in H. destruct (f_reg s) as [x|]; [|discriminate].
-  destruct (forallb is_empty x); [|discriminate]. injection H as <-. unfold fset_reg. now apply invF_frame.
-Qed.
-
-Lemma stepF_swap sg s t s' : InvF s -> fstep sg s (FESwap t) = Some s' -> InvF s'.
-Proof.
-  intros I H. simpl in H.
-  destruct (f_pcs s t) as [|c|g| |old|nw o|oi ap|r k|r|r|r] eqn:Hpc; try discriminate. injection H as <-.
-  assert (Hw : fwindow (f_pcs s t) = true) by now rewrite Hpc.
-  assert (Hm : fmain (f_pcs s t) = true) by now rewrite Hpc.
-  assert (Hu : forall t0, fmain (f_pcs s t0) = true -> t0 = t) by (intros; eapply (f_mu s I); eauto).
-  assert (Hnomain : forall x, fmain (upd (f_pcs s) t (FRet r) x) = false).
-  { intro x. tcase x t; [reflexivity|]. destruct (fmain (f_pcs s x)) eqn:E; auto. apply Hu in E. congruence. }
-  pose proof (f_window_no_token s t I Hm) as Hnt.
-  destruct (f_fut s I (S (f_gen s)) (Nat.lt_succ_diag_r _)) as (F1 & F2 & F3).
-  assert (Hne_pe : forall x c0, In (x, c0) (f_pending s) -> x <> t).
-  { intros x c0 Hin ->. destruct (f_pe s I t c0 Hin) as [E _]. congruence. }
-  set (ch' := if is_nil (f_pending s) then f_chans s
-              else upd (f_chans s) (S (f_gen s)) (mkFC (Some FMain) (fclosed (f_chans s (S (f_gen s)))))).
-  assert (Hch : forall g0, g0 <> S (f_gen s) -> ch' g0 = f_chans s g0).
-  { intros g0 Hne. unfold ch'. destruct (is_nil (f_pending s)); auto. now rewrite upd_neq. }
-  assert (Hch1 : f_pending s <> [] -> ch' (S (f_gen s)) = mkFC (Some FMain) false).
-  { intro Hne. unfold ch'. destruct (f_pending s); [congruence|]. simpl. now rewrite upd_eq, F2. }
-  assert (Hch0 : f_pending s = [] -> ch' (S (f_gen s)) = f_chans s (S (f_gen s))).
-  { intro E. unfold ch'. now rewrite E. }
-  dI I. constructor; simpl; fold ch'.
-  - intros x c0 Hin. left. rewrite upd_neq by eauto. now destruct (f_pe0 x c0 Hin).
-  - exact f_pe_nd0.
-  - intros x c0 [].
-  - constructor.
-  - intros x Hx. rewrite Hnomain in Hx. discriminate.
-  - intros x1 x2 Hx. rewrite Hnomain in Hx. discriminate.
-  - intros x g Hx. tcase x t; [discriminate|]. destruct (f_wt0 x g Hx) as (A & B & C). repeat split.
-    + lia.
-    + intro E. unfold fbatch. simpl. auto.
-    + intro E. lia.
-  - intro Hx. destruct (f_pending s) as [|p ps] eqn:Ep.
-    + rewrite Hch0 in Hx by reflexivity. congruence.
-    + repeat split; auto. discriminate.
-  - intro Hx. left. rewrite Hch1 by exact Hx. reflexivity.
-  - intro Hx. auto.
-  - intros x Hx. apply fpost_main in Hx. rewrite Hnomain in Hx. discriminate.
-  - intros x Hx. apply fpre_main in Hx. rewrite Hnomain in Hx. discriminate.
-  - intros g0 Hx. rewrite Hch by lia. apply f_fut0. lia.
-  - intros g0 r0 Hx. destruct (Nat.eq_dec g0 (S (f_gen s))) as [->|Hne].
-    + destruct (f_pending s) eqn:Ep; [rewrite Hch0 in Hx by reflexivity; congruence|].
-      rewrite Hch1 in Hx by discriminate. discriminate.
-    + rewrite Hch in Hx by auto. eauto.
-  - intros g0 Hx. destruct (Nat.eq_dec g0 (S (f_gen s))) as [->|Hne].
-    + destruct (f_pending s) eqn:Ep; [rewrite Hch0 in Hx by reflexivity; congruence|].
-      rewrite Hch1 in Hx by discriminate. discriminate.
-    + rewrite Hch in Hx by auto. eauto.
-  - intros g0 Hx. destruct (Nat.eq_dec g0 (S (f_gen s))) as [->|Hne]; auto.
-    rewrite Hch in Hx by auto. pose proof (f_vm0 g0 Hx). subst g0. congruence.
-  - intros x r0 Hx. exfalso. apply fres_window, fwindow_main in Hx. rewrite Hnomain in Hx. discriminate.
-  - intros r0 Hx. congruence.
-  - destruct f_pl0 as (hs & A & B & C). exists hs. split; auto. split; auto.
-    intro x. tcase x t; [rewrite B, Hpc; simpl; tauto | apply B].
-Qed.
-
 Lemma stepF sg s e s' : InvF s -> fstep sg s e = Some s' -> InvF s'.
 Proof.
   intros I H. destruct e.
@@ -224,3 +28,4 @@ Proof.
   - now injection H as <-.
   - destruct (fstep sg s e) as [s1|] eqn:E; [|discriminate]. apply (IH s1 s'); auto. eapply stepF; eauto.
 Qed.
+
